@@ -10,7 +10,7 @@ EXTENDS Integers, Sequences, FiniteSets, TLC, Json
 
 Flushable == BOOLEAN
 LastIDs   == {"absent", "empty", "ok", "multiline"}
-OnSession == {"unset", "reject", "accept-no-topics", "accept-topics"}
+OnSession == {"unset", "reject", "accept-no-topics", "accept-empty-topics", "accept-topics"}   \* no topics: nil; empty: a non-nil empty list
 Provider  == {"nil", "err"}
 
 Cases == [flushable : Flushable, lid : LastIDs, onsession : OnSession, provider : Provider]
